@@ -39,6 +39,7 @@ type Prop struct {
 	NotDec    []string
 	Assume    []string
 	Stub      bool // registered but not claimed yet
+	NeedDeps  bool // the rules look into dependency code: load the whole program in every tier
 }
 
 var Props = map[string]*Prop{}
